@@ -459,6 +459,8 @@ type ConnectOpts struct {
 	Dial func(path string) (net.Conn, error)
 	// NoWait: do not wait until the runtime has activated the plugin.
 	NoWait bool
+	// Wait: how long to wait for activation (default 10 s).
+	Wait time.Duration
 }
 
 // Connect registers one plugin and (unless NoWait) returns once the runtime relays
@@ -493,8 +495,12 @@ func (r *Runtime) Connect(s Spec, o ConnectOpts) (*Plugin, error) {
 	r.plugins = append(r.plugins, p)
 	r.mu.Unlock()
 	if !o.NoWait {
-		if err := r.WaitActive(p, 10*time.Second); err != nil {
-			return nil, err
+		w := o.Wait
+		if w == 0 {
+			w = 10 * time.Second
+		}
+		if err := r.WaitActive(p, w); err != nil {
+			return p, err
 		}
 	}
 	return p, nil
@@ -512,14 +518,13 @@ func EffMask(m uint32) uint32 {
 // the plugin subscribes to until the plugin has seen one: from then on it is in the
 // runtime's plugin list.
 func (r *Runtime) WaitActive(p *Plugin, d time.Duration) error {
-	ev := 0
+	var evs []int
 	for e := 1; e <= NumEvents; e++ {
 		if EffMask(p.Mask)&bit(e) != 0 {
-			ev = e
-			break
+			evs = append(evs, e)
 		}
 	}
-	if ev == 0 {
+	if len(evs) == 0 {
 		return fmt.Errorf("plugin %s subscribes to nothing", p.Name)
 	}
 	deadline := time.Now().Add(d)
@@ -528,19 +533,23 @@ func (r *Runtime) WaitActive(p *Plugin, d time.Duration) error {
 			return nil
 		}
 		if time.Now().After(deadline) {
-			return fmt.Errorf("plugin %s-%s not activated within %v", p.Idx, p.Name, d)
+			return fmt.Errorf("%w: %s-%s within %v", ErrNotActivated, p.Idx, p.Name, d)
 		}
 		// wait for the synchronisation request first: before it the plugin cannot be active
 		if p.synced.Load() == 0 {
 			time.Sleep(50 * time.Microsecond)
 			continue
 		}
-		r.Do(ev, fmt.Sprintf("%s-%d", probePrefix, r.probeN.Add(1)))
+		r.Do(evs[n%len(evs)], fmt.Sprintf("%s-%d", probePrefix, r.probeN.Add(1)))
 		if p.probes.Load() == 0 {
 			time.Sleep(50 * time.Microsecond)
 		}
 	}
 }
+
+// ErrNotActivated: the plugin registered and was synchronised, but no request of a kind it
+// subscribes to ever reached it.
+var ErrNotActivated = errors.New("plugin never received a request it subscribes to")
 
 // StopPlugin closes the plugin's side of the connection.
 func (p *Plugin) Stop() {
